@@ -321,6 +321,8 @@ M_ARP_EXACT = rec([], 0, 0, in_port=1, dl_src=MAC1, dl_dst=MAC2, dl_vlan=0xffff,
 M_ALL_RAWIP = rec(ALLF, sc=24, dl_type=0x0800, nw_src=0x0a000000)
 M_TOS0 = rec(but(DL_TYPE, TOS), dl_type=0x0800, tos=0)
 M_TOS2 = rec(but(DL_TYPE, TOS), dl_type=0x0800, tos=2)
+TOS_VALUES = [0, 1, 2, 3, 4, 5, 0x14, 0x15, 0xfc, 0xff]          # each ECN bit alone and both, under equal and different DSCP, extremes
+def m_tos(t): return rec(but(DL_TYPE, TOS), dl_type=0x0800, tos=t)
 M_ARP_REQ = rec(but(DL_TYPE, PROTO), dl_type=0x0806, proto=1)
 WITNESSES = {
     # partial_overlap_witness (D23, repaired by fixes/D23_check_overlap_true_overlap.diff): in_port=1 and dl_type=0x0800 overlap
@@ -485,6 +487,8 @@ class C04(Check):
                 eth(0x88b5, b"z" * 30, dst=MAC1).hex(),                        # matches only the all-wildcard / in_port flows
                 eth(0x0800, ip("10.1.1.1", "10.2.2.2", 6, tcp, tos=2)).hex(),  # frames[0] with ECT(0) in the ToS byte (D36's input)
                 eth(0x0806, P.arp(opcode=257, hwsrc=E(b"\0\0\0\0\0\1"), protosrc=IP("10.0.0.1"), protodst=IP("10.0.0.2"))).hex(),  # D37's input
+                eth(0x0800, ip("10.1.1.1", "10.2.2.2", 6, tcp, tos=0x15)).hex(),  # DSCP 5 with ECT(1)   } used only where the tree under test
+                eth(0x0800, ip("10.1.1.1", "10.2.2.2", 6, tcp, tos=0xff)).hex(),  # DSCP 63 with CE      } compares DSCP (D36 repaired)
             ]
         return self._frames
 
@@ -543,6 +547,26 @@ class C04(Check):
         except Exception: pass
         return None
 
+    def events_tell(self, ids_before, events, entries, outs):
+        """the table's announcements of one step, replayed on the set of entries it held before, must give the entries it holds now
+        (each arrival and each departure announced exactly once, nothing else), and the departures announced with a timeout / DELETE
+        reason by flows that ask for it are exactly the flow-removed messages of the step, in order.  None, or what is wrong."""
+        cur = list(ids_before)
+        told = []
+        for added, removed, reason in events:
+            for e in added:
+                if id(e) in cur: return "announced as added but already in the table (cookie %d)" % e.cookie
+                cur.append(id(e))
+            for e in removed:
+                if id(e) not in cur: return "announced as removed but not in the table (cookie %d)" % e.cookie
+                cur.remove(id(e))
+                if reason in (0, 1, 2) and e.flags & SEND_FLOW_REM and not e.flags & EMERG: told.append([e.cookie, reason])
+        if sorted(cur) != sorted(id(e) for e in entries):
+            return "the table's announcements (FlowTableModification) do not add up to its change: %d arrivals/departures unannounced" % len(set(cur) ^ set(id(e) for e in entries))
+        sent = [[o["cookie"], o["reason"]] for o in outs if o["k"] == "fr"]
+        if told != sent: return "flow-removed messages %s, departures announced %s" % (sent, told)
+        return None
+
     def impl(self, case):
         poxenv.clock.now = T0 / 1000.0
         node = self.swnet.SwitchNode(ports=4, max_entries=case["max"], max_buffers=case.get("bufs", 100))
@@ -552,7 +576,17 @@ class C04(Check):
         decoy_ops = [o for o in reversed(case["ops"]) if o["op"] != "adv"] if decoy else []
         steps = []
         xid = 100
+        # the table announces its changes (FlowTableModification: added / removed / reason): recorded per step
+        events = []
+        try:
+            from pox.openflow.flow_table import FlowTableModification
+            node.sw.table.addListener(FlowTableModification, lambda e: events.append((list(e.added), list(e.removed), e.reason)))
+            heard = True
+        except Exception: heard = False
         for n_op, op in enumerate(case["ops"]):
+            del events[:]
+            try: ids_before = [id(e) for e in node.sw.table.entries]
+            except Exception: heard = False
             node.w.send_buf = b""
             node.emitted = []
             before = self.pool_of(node)
@@ -581,7 +615,8 @@ class C04(Check):
                 if not freed and emits and op["op"] == "fm":
                     outs.append({"k": "emitted-without-release", "n": len(emits)})
             steps.append({"st": st, "outs": outs, "table": [self.entry_view(e) for e in node.sw.table.entries],
-                          "pool": None if after is None else [0 if b is None else 1 for b in after]})
+                          "pool": None if after is None else [0 if b is None else 1 for b in after],
+                          "ev": self.events_tell(ids_before, events, node.sw.table.entries, outs) if heard and st == "ok" else None})
         return {"steps": steps}
 
     # ---------------------------------------------------------------- model / spec through the driver
@@ -635,6 +670,7 @@ class C04(Check):
         for n, (op, s, sp) in enumerate(zip(case["ops"], obs["steps"], spec)):
             where = "step %d %s" % (n, op["op"] if op["op"] != "fm" else "fm%d" % op["cmd"])
             if s["st"] != "ok": return n, "%s: %s" % (where, s["st"])
+            if s.get("ev"): return n, "%s: %s" % (where, s["ev"])
             # installed entries, their actions, clocks and counters = the specification's table
             got, want = s["table"], sp["flows"]
             if len(got) != len(want):
@@ -862,6 +898,13 @@ class C04(Check):
         add([bt(a1, a2, a3), pk(0), bt(fm(DELETE, M_IP), a1, fm(DELETE_STRICT, M_ARP, 50), fm(MODIFY, M_ALL, 0, acts=ACTS[3])), fs()])
         add([bt(a1, fm(DELETE, M_ALL), a1, fm(DELETE, M_ALL)), bt(a2, fm(ADD, M_ARP, 50, CHECK_OVERLAP, cookie=4), fm(7, M_ALL), fs(), fm(DELETE, M_ALL, out_port=2), ags()), bt()])
         add([bt(a1, a2), adv(1000), bt(fm(ADD, M_NET8, 70, F, hard=1, cookie=5), fm(MODIFY, M_IP, 100, acts=ACTS[4])), adv(1000), sw, bt(fm(DELETE, M_ALL), fs())], max=2)
+        # -- the ToS byte (only the six DSCP bits count, in every comparison: lookup, identity, subsumption, overlap): every ordered
+        #    pair of ToS values as installed flow / new flow with and without CHECK_OVERLAP, strict operations with the other ECN bits
+        if self.cfg[6]:
+            for t1, t2 in itertools.product(TOS_VALUES, TOS_VALUES):
+                add([fm(ADD, m_tos(t1), 100, F, acts=ACTS[1], cookie=1), fm(ADD, m_tos(t2), 100, F | CHECK_OVERLAP, acts=ACTS[2], cookie=2), pk(0), pk(5), pk(7), pk(8),
+                     fm(MODIFY_STRICT, m_tos(t2 ^ 1), 100, acts=ACTS[3], cookie=3), fs(m_tos(t1 ^ 3)), fm(ADD, m_tos(t2 ^ 2), 100, F, cookie=4), fm(DELETE_STRICT, m_tos(t1 ^ 3), 100),
+                     fm(DELETE, m_tos(t2)), fs()])
         # -- items 1/2 (two instances in one process) and 4 (the other calling convention): the same histories again
         n = len(out)
         for j in range(0, n, 3): out.append(dict(copy.deepcopy(out[j]), decoy=True))
@@ -879,14 +922,14 @@ class C04(Check):
             buf = rng.choice([1, 1, 2, 3, 0, 9]) if rng.random() < 0.2 else None
             base = MATCHES if (self.cfg[6] or not self._ecn_case) else [m for m in MATCHES if m is not M_EXACT]   # see generate()
             pool = (base + ([M_ARP_EXACT] if self.cfg[5] else []) + ([M_ALL_RAWIP] if self.cfg[4] else []) +   # input classes of D26 / D38 /
-                    ([M_TOS0, M_TOS2] if self.cfg[6] else []))                                                  # D36 once repaired
+                    ([M_TOS0, M_TOS2, m_tos(rng.choice(TOS_VALUES)), m_tos(rng.choice(TOS_VALUES))] if self.cfg[6] else []))   # D36 once repaired
             rare = rng.random() < 0.12
             return fm(cmd, rng.choice(pool), rng.choice(RARE_PRIOS if rare else PRIOS), flags,
                       out_port=(rng.choice(RARE_PORTS if rare else [NONE, NONE, 2, 3, 4]) if cmd in (DELETE, DELETE_STRICT) else rng.choice([NONE, 2, 0])),
                       acts=(ACTS[rng.choice(BUF_ACTS)] if buf is not None else rng.choice(ACTS)), idle=rng.choice([0, 0, 1, 2, 3]),
                       hard=rng.choice([0, 0, 1, 3, 5]), cookie=(rng.choice(RARE_COOKIES) if rare else rng.randint(0, 2 ** 64 - 1)), buf=buf)
         if r < 0.7:      # incl. the ECN-marked frame when the history may carry one
-            return {"op": "pkt", "frame": rng.choice(fr[:6] if (self.cfg[6] or self._ecn_case) else fr[:5]), "port": rng.choice([1, 1, 2, 3])}
+            return {"op": "pkt", "frame": rng.choice((fr[:6] + fr[7:9]) if self.cfg[6] else fr[:6] if self._ecn_case else fr[:5]), "port": rng.choice([1, 1, 2, 3])}
         if r < 0.82: return {"op": "adv", "dt": rng.choice([125, 500, 875, 1000, 1125, 2000, 3125])}
         if r < 0.93: return {"op": "sweep"}
         return {"op": rng.choice(["fstats", "astats"]), "m": rng.choice([M_ALL, M_ALL, M_IP, M_NET8, M_INPORT1]), "out_port": rng.choice([NONE, NONE, 2, 3, 0, CONTROLLER])}
